@@ -21,9 +21,11 @@ REPO_SRC = os.path.join(REPO_SIM, "src")
 # weather / daylight control (set by the harness before a run)
 # ----------------------------------------------------------------------------------------------
 WEATHER = {
-    # function (day_index, lat_idx, lon_idx) -> (temp_C, wind_m_s, precip_mm); default: always fine
+    # function (day_of_year 0..365, lat_idx, lon_idx) -> (temp_C, wind_m_s, precip_mm), constant over
+    # the 24 hourly steps of that day (the simulator indexes the cube by tm_yday*24 + hour);
+    # default: always fine
     "fn": None,
-    "ndays": 366 * 6,
+    "ndays": 366,
     "lats": [20.0, 40.0, 60.0],
     "lons": [-120.0, -100.0, -80.0],
 }
@@ -57,7 +59,7 @@ def _install_netcdf_stub():
 
     class Dataset:
         def __init__(self, path, mode="r", *a, **k):
-            nd = WEATHER["ndays"]
+            nd = WEATHER["ndays"] * 24
             lats = np.array(WEATHER["lats"], dtype=float)
             lons = np.array(WEATHER["lons"], dtype=float)
             t = np.full((nd, len(lats), len(lons)), 15.0 + 273.15)
@@ -66,13 +68,13 @@ def _install_netcdf_stub():
             p = np.zeros((nd, len(lats), len(lons)))
             fn = WEATHER["fn"]
             if fn is not None:
-                for d in range(nd):
+                for d in range(WEATHER["ndays"]):
                     for i in range(len(lats)):
                         for j in range(len(lons)):
                             tc, w, pr = fn(d, i, j)
-                            t[d, i, j] = tc + 273.15
-                            u[d, i, j] = w
-                            p[d, i, j] = pr / 1000.0
+                            t[d * 24:(d + 1) * 24, i, j] = tc + 273.15
+                            u[d * 24:(d + 1) * 24, i, j] = w
+                            p[d * 24:(d + 1) * 24, i, j] = pr / 1000.0
             self.variables = {
                 "t2m": _Var(t),
                 "u10": _Var(u),
